@@ -23,6 +23,9 @@ var c02Workflows = map[string]string{
 	"merge-order.yml": "on: push\njobs:\n  j:\n    runs-on: ubuntu-latest\n    services:\n      s:\n        image: x\n    steps:\n      - run: |\n          echo ${{ (job.services || fromJSON('{\"p\":{\"x\":1},\"q\":{\"x\":\"s\"},\"r\":{\"x\":true}}')).foo.x.y }}\n      - run: |\n          echo ${{ (fromJSON('{\"a\":1,\"b\":\"s\",\"c\":true,\"d\":null}') || job.services).zz.y }}\n",
 	"undefined-many.yml": "on: push\njobs:\n  j:\n    runs-on: ubuntu-latest\n    strategy:\n      matrix:\n        a: [1]\n        b: [1]\n        c: [1]\n        exclude:\n          - x: 1\n            y: 2\n            z: 3\n    steps:\n      - run: echo ${{ nosuchvar }} ${{ nosuchfn() }}\n      - run: echo ${{ github.nosuch }}\n    permissions:\n      zz1: read\n      zz2: write\n",
 	"workflow-call.yml": "on: push\njobs:\n  c1:\n    uses: ./.github/workflows/reusable.yml\n  c2:\n    uses: ./.github/workflows/reusable.yml\n    with:\n      x1: 1\n      x2: 2\n    secrets:\n      y1: a\n      y2: b\n  l1:\n    runs-on: ubuntu-latest\n    steps:\n      - uses: ./.github/actions/local\n      - uses: ./.github/actions/local\n        with:\n          q1: 1\n          q2: 2\n",
+	// candidates whose positions have an increasing line and a DECREASING column (flow style over several lines):
+	// the order "first by position" must still be a total order there
+	"staircase.yml": "on: push\njobs: {\n        aa: {needs: [bb], runs-on: ubuntu-latest, steps: [{run: echo}]},\n      bb: {needs: [aa], runs-on: ubuntu-latest, steps: [{run: echo}]},\n    cc: {needs: [dd], runs-on: ubuntu-latest, steps: [{run: echo}]},\n  dd: {needs: [cc], runs-on: ubuntu-latest, steps: [{run: echo}]},\n  l: {runs-on: [                 linux,\n          ubuntu-22.04,\n    windows-latest, macos-latest], steps: [{run: echo}]},\n  m: {strategy: {matrix: {include: [{os: linux}], os: [ubuntu-22.04], target: [windows-latest]}}, runs-on: [\"${{ matrix.os }}\", \"${{ matrix.target }}\"], steps: [{run: echo}]}\n}\n",
 }
 
 const c02Reusable = "on:\n  workflow_call:\n    inputs:\n      i1:\n        type: string\n        required: true\n      i2:\n        type: string\n        required: true\n      i3:\n        type: string\n        required: true\n    secrets:\n      s1:\n        required: true\n      s2:\n        required: true\n      s3:\n        required: true\njobs:\n  j:\n    runs-on: ubuntu-latest\n    steps:\n      - run: echo\n"
@@ -33,7 +36,7 @@ func runC02(c *ctx, r *Report) error {
 	if !c.quick {
 		reps = 400
 	}
-	r.Rule = fmt.Sprintf("7 workflows built so that every site where the code ranges over a Go map yields two or more diagnostics at one source position or several candidates (surplus format placeholders, missing required inputs of bundled / local actions and of a local reusable workflow incl. secrets, undefined inputs, runner-label conflicts with several conflicting labels, several needs cycles, Merge of object types with ≥ 3 properties, several undefined matrix keys / permission scopes / variables), in a scratch repository with a local action and a local reusable workflow; each file alone and all files in one LintFiles call are linted %d times by fresh linters under GOMAXPROCS ∈ {1,2,4,16}; output bytes (-oneline) and exit status must be identical in every repetition; non-trivial = distinct (file set, GOMAXPROCS) configurations that produce ≥ 2 diagnostics", reps)
+	r.Rule = fmt.Sprintf("8 workflows built so that every site where the code ranges over a Go map yields two or more diagnostics at one source position or several candidates (surplus format placeholders, missing required inputs of bundled / local actions and of a local reusable workflow incl. secrets, undefined inputs, runner-label conflicts with several conflicting labels, several needs cycles, Merge of object types with ≥ 3 properties, several undefined matrix keys / permission scopes / variables, candidates laid out with increasing line and decreasing column), in a scratch repository with a local action and a local reusable workflow; each file alone and all files in one LintFiles call are linted %d times by fresh linters under GOMAXPROCS ∈ {1,2,4,16}; output bytes (-oneline) and exit status must be identical in every repetition; non-trivial = distinct (file set, GOMAXPROCS) configurations that produce ≥ 2 diagnostics", reps)
 	tmp, err := os.MkdirTemp("", "verif-c02-")
 	if err != nil {
 		return err
@@ -137,6 +140,63 @@ func runC02(c *ctx, r *Report) error {
 					break
 				}
 			}
+		}
+	}
+	// the order on source positions used to pick "the first" candidate: Pos.IsBefore must be a strict total order
+	// (checked law by law on the implementation over a grid), and equal to the model's (AL.SrcPos.isBefore, for
+	// which AL.Props.C02Pos proves the laws and the order-independence of selection and sorting)
+	{
+		var b batch
+		const g = 6
+		before := func(l1, c1, l2, c2 int) bool {
+			return (&actionlint.Pos{Line: l1, Col: c1}).IsBefore(&actionlint.Pos{Line: l2, Col: c2})
+		}
+		pc := func(l1, c1, l2, c2 int) Case {
+			return Case{Op: "posbefore", Input: map[string]string{"p": fmt.Sprintf("line:%d,col:%d", l1, c1), "q": fmt.Sprintf("line:%d,col:%d", l2, c2)}}
+		}
+		for l1 := 0; l1 < g; l1++ {
+			for c1 := 0; c1 < g; c1++ {
+				for l2 := 0; l2 < g; l2++ {
+					for c2 := 0; c2 < g; c2++ {
+						r.Evaluations++
+						ab, ba := before(l1, c1, l2, c2), before(l2, c2, l1, c1)
+						same := l1 == l2 && c1 == c2
+						if ab && ba {
+							r.finding("position-order-not-strict-total", "p.IsBefore(q) and q.IsBefore(p) both hold: which candidate is 'first' depends on map iteration order", pc(l1, c1, l2, c2))
+						}
+						if !same && !ab && !ba {
+							r.finding("position-order-not-strict-total", "neither p.IsBefore(q) nor q.IsBefore(p) for distinct positions", pc(l1, c1, l2, c2))
+						}
+						if same && ab {
+							r.finding("position-order-not-strict-total", "p.IsBefore(p) holds", pc(l1, c1, l2, c2))
+						}
+						v := "0"
+						if ab {
+							v = "1"
+						}
+						b.add(fmt.Sprintf("posbefore %d %d %d %d", l1, c1, l2, c2), v, pc(l1, c1, l2, c2))
+						if ab {
+							for l3 := 0; l3 < g; l3++ {
+								for c3 := 0; c3 < g; c3++ {
+									if before(l2, c2, l3, c3) && !before(l1, c1, l3, c3) {
+										cs := pc(l1, c1, l2, c2)
+										cs.Input["r"] = fmt.Sprintf("line:%d,col:%d", l3, c3)
+										r.finding("position-order-not-strict-total", "IsBefore is not transitive (p < q, q < r, not p < r)", cs)
+									}
+								}
+							}
+						}
+					}
+				}
+			}
+		}
+		r.nontrivial("posbefore-grid")
+		r.Rule += fmt.Sprintf("; Pos.IsBefore on the %d×%d grid of (line, col) pairs: irreflexive, asymmetric, total, transitive, and equal to the Lean model", g*g, g*g)
+		b.judge = func(cs Case) (string, string) {
+			return "position-order-differs-from-lexicographic", "Pos.IsBefore differs from the (line, column) lexicographic order the selection / sorting theorems are proved for"
+		}
+		if _, err := b.flush(c, r); err != nil {
+			return err
 		}
 	}
 	r.sample(map[string]interface{}{"files": names, "repetitions_per_set": reps, "gomaxprocs": []int{1, 2, 4, 16}})
